@@ -148,8 +148,10 @@ def _mk_init_body( self_name, name, type_ ):
       return f"[{', '.join( [ _recursive_generate_init(x[0]) ] * len(x) )}]"
     return f"_type_{name}()"
 
+  # A bitstruct is a value: like the Bits fields, struct and list arguments
+  # are copied (and the elements of a list converted to the field type)
   if isinstance( type_, list ) or is_bitstruct_class( type_ ):
-    return f'{self_name}.{name} = {name} or {_recursive_generate_init(type_)}'
+    return f'{self_name}.{name} = _conv_{name}({name}) if {name} else {_recursive_generate_init(type_)}'
 
   assert issubclass( type_, Bits )
   return f'{self_name}.{name} = _type_{name}({name})'
@@ -189,15 +191,26 @@ def _mk_init_fn( self_name, fields ):
   # Register necessary types in _globals
   _globals = {}
 
+  def _mk_conv( type_ ):
+    if isinstance( type_, list ):
+      conv = _mk_conv( type_[0] )
+      return lambda v: [ conv(x) for x in v ]
+    if is_bitstruct_class( type_ ):
+      return lambda v: v.clone()
+    return type_ # BitsN( v ) copies a Bits and converts an int
+
   for name, type_ in fields.items():
     if isinstance( type_, list ):
       x = type_[0]
       while isinstance( x, list ):
         x = x[0]
       _globals[ f"_type_{name}" ] = x
+      _globals[ f"_conv_{name}" ] = _mk_conv( type_ )
     else:
       assert issubclass( type_, Bits ) or is_bitstruct_class( type_ )
       _globals[ f"_type_{name}" ] = type_
+      if is_bitstruct_class( type_ ):
+        _globals[ f"_conv_{name}" ] = _mk_conv( type_ )
 
   return _create_fn(
     '__init__',
